@@ -65,6 +65,16 @@ def merge_cases(pid, tier, seed):
         d['label'] = 'fuzz|' + c['label']
         d['family'] = 'fuzz'
         cases.append(d)
+    # mixed content: the same cases with a distinct tail text after every element of both documents
+    for c in base[:(1200 if tier == 'quick' else 12000):2] + [c for c in cases if c['family'] == 'odd'][::3]:
+        d = dict(c)
+        which = rng.random()
+        d['ro'] = gen_fuzz.with_tails(c['ro'], 'r') if which < 0.8 else c['ro']
+        d['msg'] = gen_fuzz.with_tails(c['msg'], 'm') if which > 0.4 else c['msg']
+        d.pop('msg_text', None)
+        d['label'] = 'tails|' + c['label']
+        d['family'] = 'tails'
+        cases.append(d)
     # G-hist: every step of seeded random histories run on live objects ("from every reachable state")
     n_hist = 150 if tier == 'quick' else 1500
     hists = hist_run.run_histories([seed * 100003 + k for k in range(n_hist)],
@@ -72,6 +82,8 @@ def merge_cases(pid, tier, seed):
     cases += hist_run.history_cases(hists)
     # scripted: a message object is added, its content edited in the running order, and the same object added again
     cases += hist_run.history_cases(hist_run.run_reuse_histories())
+    # scripted: a multi-element message fails at its k-th element, then valid messages touch what it had looked up
+    cases += hist_run.history_cases(hist_run.run_fault_then_valid_histories())
     return cases
 
 
@@ -79,6 +91,10 @@ def make_merge_check(pid):
     def run(tier, seed):
         cases = merge_cases(pid, tier, seed)
         oc = merge_family.evaluate(pid, cases)
+        if pid == 'C07':
+            # the collection's `completed`, before and after its merge, and collections over re-used readers
+            from . import coll_family
+            coll_family.run_stage_checks(oc, pid, tier, seed)
         oc.exhaustive = False
         oc.extra['exhaustive_part'] = 'the G-pos scope is enumerated completely; histories, fuzz and odd shapes are samples'
         oc.extra['scope'] = ('G-pos enumerated completely for the tier scope (see harness/gen_pos.py and '
@@ -160,4 +176,4 @@ def replay(payload):
     return handler(pid, fl)
 
 
-REPLAYERS = {'sources': io_family.replay_c18, 'sources-bytes': io_family.replay_c18, 'listing': io_family.replay_c18, 'collection-sources': io_family.replay_c18, 'cli': io_family.replay_c19, 'cli-s3': io_family.replay_c19_s3, 'alias-history': alias_family.replay, 'alias-targeted': alias_family.replay, 'roundtrip': ser_family.replay, 'elements': elem_family.replay, 'classify': class_family.replay, 'classify-bytes': class_family.replay, 'access': access_family.replay, 'collection': coll_family.replay, 'collection-perm': coll_family.replay, 'validate': coll_family.replay}
+REPLAYERS = {'sources': io_family.replay_c18, 'sources-bytes': io_family.replay_c18, 'listing': io_family.replay_c18, 'collection-sources': io_family.replay_c18, 'cli': io_family.replay_c19, 'cli-s3': io_family.replay_c19_s3, 'alias-history': alias_family.replay, 'alias-targeted': alias_family.replay, 'alias-fresh-process': alias_family.replay, 'roundtrip': ser_family.replay, 'elements': elem_family.replay, 'classify': class_family.replay, 'classify-bytes': class_family.replay, 'access': access_family.replay, 'collection': coll_family.replay, 'collection-perm': coll_family.replay, 'validate': coll_family.replay, 'collection-stages': coll_family.replay}
